@@ -1,6 +1,10 @@
 /-
 `Clean` is single-valued for clients whose request function is monotone and whose request ids are
-distinct: whatever order inputs are delivered in, a task ends with the same received values.
+distinct within each request list: whatever order inputs are delivered in, a task ends with the same
+received values.  WHICH request an id stands for may depend on the values delivered so far (dynamic
+tasks: `Node(path/filenames[i])` under id `1+i` for a delivered listing `filenames`); by monotonicity
+everything issued along a valid delivery sequence is still in the current request list
+(`valid_seq_inv`), so distinctness inside one list is all that is needed.
 -/
 import LLBuild.Lemmas.Engine.Finish
 
@@ -9,10 +13,11 @@ namespace LLBuild.Engine
 def SortedIds (r : Recv) : Prop := r.Pairwise (fun a b => a.1 < b.1)
 
 /-- more received values never retract a request (received values are kept sorted by id, one per
-id); ids identify requests -/
+id); ids identify requests within one request list (the request made under an id may depend on the
+values received) -/
 structure Program.Mono (P : Program) : Prop where
   mono : ∀ k (r r' : Recv), SortedIds r → SortedIds r' → (∀ x ∈ r, x ∈ r') → ∀ q ∈ P.next k r, q ∈ P.next k r'
-  ids : ∀ k (r r' : Recv) q q', q ∈ P.next k r → q' ∈ P.next k r' → q.id = q'.id → q = q'
+  ids : ∀ k (r : Recv) q q', q ∈ P.next k r → q' ∈ P.next k r → q.id = q'.id → q = q'
 
 /-! ### `insertRecv`: membership and sortedness -/
 
@@ -156,35 +161,66 @@ theorem delivered_iff (seq : Seq) (q : Req) : delivered seq q = true ↔ ∃ v, 
   · rintro ⟨⟨q', v⟩, hm, he⟩; simp at he; subst he; exact ⟨v, hm⟩
   · rintro ⟨v, hm⟩; exact ⟨(q, v), hm, rfl⟩
 
+/-- along a valid delivery sequence everything issued so far is still requested, and the received
+values are exactly the deliveries (no id is overwritten) -/
+theorem valid_seq_inv {P : Program} (hM : P.Mono) (k : Key) : ∀ (seq : Seq), validSeq P k seq = true →
+    (∀ q, q ∈ issuedAfter P k seq → q ∈ P.next k (recvOf seq)) ∧
+    (∀ (i : Nat) (x : Val), (i, x) ∈ recvOf seq ↔ ∃ q v, (q, v) ∈ seq ∧ q.id = i ∧ x = maskVal q v)
+  | [], _ => by
+    refine ⟨?_, ?_⟩
+    · intro q hq
+      simp only [issuedAfter] at hq
+      exact List.mem_eraseDups.1 hq
+    · intro i x; simp [recvOf]
+  | (q, v) :: rest, hv => by
+    have hv' := hv
+    simp only [validSeq, Bool.and_eq_true] at hv'
+    obtain ⟨⟨⟨hvr, hiss⟩, _⟩, hnd⟩ := hv'
+    obtain ⟨ihA, ihB⟩ := valid_seq_inv hM k rest hvr
+    have hqn : q ∈ P.next k (recvOf rest) := ihA q (by simpa using hiss)
+    -- the id of the new delivery is fresh: an earlier delivery under the same id would be the same
+    -- request (both are in the current request list), but `q` was not delivered before
+    have hfresh : ∀ q0 v0, (q0, v0) ∈ rest → q0.id ≠ q.id := by
+      intro q0 v0 hm heq
+      have h0 : q0 ∈ P.next k (recvOf rest) := ihA q0 (validSeq_issued P k rest hvr q0 v0 hm)
+      have : q0 = q := hM.ids k _ q0 q h0 hqn heq
+      subst this
+      have : delivered rest q0 = true := (delivered_iff rest q0).2 ⟨v0, hm⟩
+      simp [this] at hnd
+    have hB : ∀ (i : Nat) (x : Val), (i, x) ∈ recvOf ((q, v) :: rest) ↔
+        ∃ q' v', (q', v') ∈ (q, v) :: rest ∧ q'.id = i ∧ x = maskVal q' v' := by
+      intro i x
+      simp only [recvOf]
+      rw [mem_insertRecv _ _ _ (sorted_recvOf rest)]
+      constructor
+      · rintro (⟨h1, h2⟩ | ⟨h1, _⟩)
+        · exact ⟨q, v, by simp, h1.symm, h2⟩
+        · obtain ⟨q0, v0, hm, hid, hx⟩ := (ihB i x).1 h1
+          exact ⟨q0, v0, List.mem_cons_of_mem _ hm, hid, hx⟩
+      · rintro ⟨q0, v0, hm, hid, hx⟩
+        rcases List.mem_cons.1 hm with e | hm'
+        · cases e; left; exact ⟨hid.symm, hx⟩
+        · right
+          exact ⟨(ihB i x).2 ⟨q0, v0, hm', hid, hx⟩, fun heq => hfresh q0 v0 hm' (by rw [hid, heq])⟩
+    refine ⟨?_, hB⟩
+    intro q' hq'
+    simp only [issuedAfter] at hq'
+    rcases List.mem_append.1 hq' with h | h
+    · apply hM.mono k (recvOf rest) _ (sorted_recvOf rest) (sorted_recvOf _) _ q' (ihA q' h)
+      rintro ⟨i, x⟩ hx
+      obtain ⟨q0, v0, hm, hid, hxe⟩ := (ihB i x).1 hx
+      exact (hB i x).2 ⟨q0, v0, List.mem_cons_of_mem _ hm, hid, hxe⟩
+    · exact (List.mem_filter.1 (List.mem_eraseDups.1 h)).1
+
+/-- everything a task has issued along a valid delivery sequence is in its current request list -/
+theorem issued_still_requested {P : Program} (hM : P.Mono) (k : Key) (seq : Seq)
+    (hv : validSeq P k seq = true) (q : Req) (h : q ∈ issuedAfter P k seq) : q ∈ P.next k (recvOf seq) :=
+  (valid_seq_inv hM k seq hv).1 q h
+
 /-- membership in `recvOf` of a valid sequence -/
-theorem mem_recvOf {P : Program} (hM : P.Mono) (k : Key) : ∀ (seq : Seq), validSeq P k seq = true →
-    ∀ (i : Nat) (x : Val), ((i, x) ∈ recvOf seq ↔ ∃ q v, (q, v) ∈ seq ∧ q.id = i ∧ x = maskVal q v)
-  | [], _, i, x => by simp [recvOf]
-  | (q, v) :: rest, hv, i, x => by
-    simp only [validSeq, Bool.and_eq_true] at hv
-    obtain ⟨⟨⟨hvr, hiss⟩, _⟩, hnd⟩ := hv
-    have ih := mem_recvOf hM k rest hvr
-    simp only [recvOf]
-    rw [mem_insertRecv _ _ _ (sorted_recvOf rest)]
-    constructor
-    · rintro (⟨h1, h2⟩ | ⟨h1, _⟩)
-      · exact ⟨q, v, by simp, h1.symm, h2⟩
-      · obtain ⟨q0, v0, hm, hid, hx⟩ := (ih i x).1 h1
-        exact ⟨q0, v0, List.mem_cons_of_mem _ hm, hid, hx⟩
-    · rintro ⟨q0, v0, hm, hid, hx⟩
-      rcases List.mem_cons.1 hm with e | hm'
-      · cases e; left; exact ⟨hid.symm, hx⟩
-      · right
-        refine ⟨(ih i x).2 ⟨q0, v0, hm', hid, hx⟩, ?_⟩
-        intro heq
-        -- equal ids would make q0 = q, but q was not delivered before
-        obtain ⟨r1, hr1⟩ := issuedAfter_from_next P k rest q (by simpa using hiss)
-        have hq0iss : q0 ∈ issuedAfter P k rest := validSeq_issued P k rest hvr q0 v0 hm'
-        obtain ⟨r0, hr0⟩ := issuedAfter_from_next P k rest q0 hq0iss
-        have : q0 = q := hM.ids k r0 r1 q0 q hr0 hr1 (by rw [hid, heq])
-        subst this
-        have : delivered rest q0 = true := (delivered_iff rest q0).2 ⟨v0, hm'⟩
-        simp [this] at hnd
+theorem mem_recvOf {P : Program} (hM : P.Mono) (k : Key) (seq : Seq) (hv : validSeq P k seq = true)
+    (i : Nat) (x : Val) : ((i, x) ∈ recvOf seq ↔ ∃ q v, (q, v) ∈ seq ∧ q.id = i ∧ x = maskVal q v) :=
+  (valid_seq_inv hM k seq hv).2 i x
 
 /-- if every delivery of `s1` also happens in `s2` with the same (masked) value, everything `s1`
 issues is also issued by `s2` -/
